@@ -143,6 +143,16 @@ func c04(r *core.Run) {
 	c03GateComm(r, "C04.COMMZ")
 	// 'preserved' by fingerprint equality rests on the normalisations not merging different behaviour
 	c03GateSwap(r, "C04.SWAPGATE")
+	// ... and on the rendering keeping apart what behaves differently: the structural necessary conditions of C03
+	// are necessary conditions here, because an equal fingerprint is reported as preserved without any matching
+	r.Under("C03.", "C04.FP.", func() {
+		c03Cover(r)
+		c03Leaf(r)
+		c03Perm(r)
+		c12IVGate(r, "C03.GATE.iv", "C03.GATE.iv")
+		c03GateHoist(r)
+		c16EnumRule(r, "C03.ENUM")
+	})
 }
 
 // readsSuccs reports whether fn (or callees in pkg/diff, depth 2) reads BasicBlock.Succs/Preds.
@@ -611,7 +621,6 @@ func c04Pres(r *core.Run) {
 	}
 	r.Floor("C04.PRES", "stores of status 'preserved'", m, 2)
 }
-
 
 // c04BlockMap: the block correspondence that the successor comparison works on is derived from the matched
 // instructions; a matched instruction may be left out of it only for one of the enumerated reasons. Any other
